@@ -160,21 +160,41 @@ class Roles:
         table = F.enum_table(self.dep_enum) if self.dep_enum else None
         if not table:
             return None
-        testers = []
-        for cb in F.closures_of(method):
-            for (bb, k), g in cb.guards.items():
-                if g.kind == 'enum' and g.extra == self.dep_enum:
-                    testers.append(cb)
-                    break
+        def tests_enum(b):
+            return any(g.kind == 'enum' and g.extra == self.dep_enum for g in b.guards.values())
+
+        def with_helpers_inlined(b):
+            """`d.is_write()` / `d.as_read()`-style accessors: local functions that test the enum on behalf of the closure are inlined
+            into it for this evaluation (flatten.inline_dict + threading), so the closure's answer per variant can be read off."""
+            hs = {F.callee_body(c).id for c in b.calls.values() if F.callee_body(c) is not None and F.callee_body(c).id != b.id
+                  and F.callee_body(c).kind in ('Fn', 'AssocFn') and tests_enum(F.callee_body(c))}
+            if not hs:
+                return b
+            try:
+                import flatten
+                from core import Body
+                nd, inl = flatten.inline_dict(F, b.d, b.crate, hs, {})
+                if not inl:
+                    return b
+                nd, _ = flatten.thread_dict(nd)
+                nb = Body(F, b.crate, nd)
+                nb.unit, nb.unit_is_test = getattr(b, 'unit', None), getattr(b, 'unit_is_test', False)
+                return nb
+            except Exception:
+                return b
+        cands = [(with_helpers_inlined(cb), True) for cb in F.closures_of(method)] + [(with_helpers_inlined(method), False)]
+        testers = [(cb, is_clo) for cb, is_clo in cands if tests_enum(cb)]
         if not testers:
             return 'all'
         if len(testers) != 1:
             return None
-        cb = testers[0]
+        cb, is_clo = testers[0]
         accepted = set()
         for v in table.values():
             r = closure_result_under_variant(cb, self.dep_enum, v)
-            if r == 'yes':
+            # a closure is asked once per edge: it must always accept; a loop in the method itself accepts an edge of this variant on
+            # some path and runs off the end of the iterator on another
+            if r == 'yes' or (r == 'maybe' and not is_clo):
                 accepted.add(v)
             elif r != 'no':
                 return None
@@ -276,6 +296,26 @@ def closure_result_under_variant(cb, enum_ty, variant):
                 vals.add(None)
         return vals
 
+    def opt_of_local(l, depth=0):
+        """'yes' / 'no' / 'unknown' for the Option values a local may hold on the examined paths"""
+        out = set()
+        for d in cb.defs.get(l, []):
+            if d[1] not in blocks:
+                continue
+            if d[0] == 'stmt' and d[3]['k'] == 'aggr' and d[3]['ak'].get('adt', '').endswith('option::Option'):
+                out.add('yes' if d[3]['ak']['variant'] == 'Some' else 'no')
+            elif d[0] == 'stmt' and d[3]['k'] == 'use' and depth < 5:
+                op = cb.facts.operand(d[3]['op'])
+                if op[0] in ('c', 'm') and not op[1][1]:
+                    out |= opt_of_local(op[1][0], depth + 1)
+                else:
+                    out.add('unknown')
+            elif d[0] == 'call' and d[2].qname == 'std::option::Option::map' and d[2].args and d[2].args[0][0] in ('c', 'm') and not d[2].args[0][1][1] and depth < 5:
+                out |= opt_of_local(d[2].args[0][1][0], depth + 1)
+            else:
+                out.add('unknown')
+        return out or {'unknown'}
+
     for d in cb.defs.get(0, []):
         if d[1] not in blocks:
             continue
@@ -304,6 +344,8 @@ def closure_result_under_variant(cb, enum_ty, variant):
                         results.add({'1': 'yes', '0': 'no'}.get(v, 'unknown'))
                 else:
                     results.add('unknown')
+            elif call.qname == 'std::option::Option::map' and call.args and call.args[0][0] in ('c', 'm') and not call.args[0][1][1]:
+                results |= opt_of_local(call.args[0][1][0])  # Some stays Some, None stays None
             elif call.qname in ('std::cmp::PartialEq::eq', 'std::cmp::PartialEq::ne'):
                 results.add('maybe')  # value-dependent answer (e.g. `data.task == task`), reached only under this variant
             else:
